@@ -123,7 +123,7 @@ def check_hashes(root):
     except TypeError:
         # a tree in which an edit has put a list inside a list argument is unhashable for sqlglot itself (hash(tree)
         # raises for the user as well): nothing to compare cached hashes with
-        return errs, False
+        return [("I4-unhashable", "hash() of the %s tree raises TypeError (a list nested inside a list argument: its members are not linked to a parent either)" % type(root).__name__, type(root).__name__)], False
     cnodes = walk(c, Expr)
     if len(cnodes) != len(nodes):
         return [("harness", "clone walk mismatch", "")], False
